@@ -374,6 +374,7 @@ func runC18(c *Check) {
 	ruleLoaderReadsWrittenFile(c, p)
 	c.Doc("C18-R9", "VP+CS: wherever a flag name is turned into an option key (viper Set / BindPFlag / BindEnv / SetDefault), the key is the name itself or the name with exactly the registered flag prefix removed (TrimPrefix / CutPrefix with the one prefix constant) — no character-set trimming or other rewriting, which mangles some option paths so that their flags are silently ignored.")
 	ruleFlagKeyMapping(c, p)
+	ruleWriterWritesEveryValue(c, p)
 	c.Doc("C18-R7", "CS: the text encoder and decoder of every configuration leaf type with its own text codec are an inverse pair of the standard library applied to the whole value, with no transformation in between (what is written is what is read).")
 	ruleTextCodecsInverse(c, p)
 }
@@ -815,4 +816,95 @@ func ruleFlagKeyMapping(c *Check, p *Prog) {
 		c.Unk(rule, "key-sites", "", "", "anchor lost: no viper Set / Bind call in the configuration package")
 	}
 	c.MinInstances(rule, 3)
+}
+
+// ruleWriterWritesEveryValue (C18-R10): the loader starts from the defaults and overrides what the
+// file names. A value the writer leaves out comes back as its default — which differs from the
+// value saved whenever an option was set to the zero value of its type and its default is not zero
+// (gas price 0 vs -1, max connections 0 = unlimited vs 3, an emptied address). So the writer must
+// write every option whatever its value: no omit-empty / omit-zero marshal option, and no
+// ",omitempty" / ",omitzero" in the yaml tag of a configuration leaf.
+func ruleWriterWritesEveryValue(c *Check, p *Prog) {
+	rule := "C18-R10"
+	c.Doc(rule, "CT+CS: the configuration writer writes every option whatever its value: its YAML marshal call carries no omit-empty / omit-zero option and no leaf's yaml tag says omitempty / omitzero (an omitted zero value reloads as the default, not as what was saved).")
+	n := 0
+	for _, fn := range p.Funcs {
+		pk := fnPkg(fn)
+		if pk == nil || pk.Pkg.Path() != configPkg || fn.Blocks == nil {
+			continue
+		}
+		for _, b := range fn.Blocks {
+			for _, in := range b.Instrs {
+				call, ok := in.(*ssa.Call)
+				if !ok {
+					continue
+				}
+				cn := commonName(call.Common())
+				if !strings.Contains(cn, "go-yaml.Marshal") && !strings.Contains(cn, "yaml.v3.Marshal") && !strings.Contains(cn, "yaml.v2.Marshal") {
+					continue
+				}
+				n++
+				var omits []string
+				for _, a := range call.Common().Args {
+					TermOf(a, &Ctx{Fn: fn}).Walk(func(t *Term) bool {
+						if t.Op == "call" && (strings.HasSuffix(t.Name, ".OmitEmpty") || strings.HasSuffix(t.Name, ".OmitZero")) {
+							omits = append(omits, t.Name[strings.LastIndex(t.Name, "/")+1:])
+						}
+						return true
+					})
+				}
+				inst := fnShort(fn) + " ⟂ marshal writes every value"
+				if len(omits) == 0 {
+					c.OK(rule, inst, fnName(fn), p.InstrPos(in), "the marshal call carries no option that leaves values out", true)
+				} else {
+					c.Bad(rule, inst, fnName(fn), p.InstrPos(in), "the writer marshals with "+strings.Join(omits, ", ")+": an option set to the zero value of its type is left out of the file and reloads as its default (gas price 0 → -1, max connections 0 = unlimited → 3, an emptied address → the default address): the saved configuration does not load back equal", nil)
+				}
+			}
+		}
+	}
+	if n == 0 {
+		c.Unk(rule, "writer ⟂ marshal", "", "", "anchor lost: no YAML marshal call in the configuration package")
+	}
+	// tags
+	if tp := p.TypesPkg(configPkg); tp != nil {
+		var bad []string
+		seen := map[types.Type]bool{}
+		var walk func(t types.Type, path string)
+		walk = func(t types.Type, path string) {
+			if pt, ok := t.Underlying().(*types.Pointer); ok {
+				t = pt.Elem()
+			}
+			st, ok := t.Underlying().(*types.Struct)
+			if !ok || seen[t] {
+				return
+			}
+			seen[t] = true
+			for i := 0; i < st.NumFields(); i++ {
+				f := st.Field(i)
+				if v, ok := reflect.StructTag(st.Tag(i)).Lookup("yaml"); ok {
+					for _, opt := range strings.Split(v, ",")[1:] {
+						if opt == "omitempty" || opt == "omitzero" {
+							bad = append(bad, path+f.Name()+" ("+opt+")")
+						}
+					}
+				}
+				if nt, ok := f.Type().(*types.Named); ok && nt.Obj().Pkg() == tp {
+					walk(nt, path+f.Name()+".")
+				} else if pt, ok := f.Type().(*types.Pointer); ok {
+					if nt, ok := pt.Elem().(*types.Named); ok && nt.Obj().Pkg() == tp {
+						walk(nt, path+f.Name()+".")
+					}
+				}
+			}
+		}
+		if o := tp.Scope().Lookup("Config"); o != nil {
+			walk(o.Type(), "")
+			sort.Strings(bad)
+			if len(bad) == 0 {
+				c.OK(rule, "Config ⟂ no leaf is omitted when zero", "", "", "no yaml tag of a configuration leaf says omitempty / omitzero", true)
+			} else {
+				c.Bad(rule, "Config ⟂ no leaf is omitted when zero", "", "", "configuration leaves are left out of the file when they hold the zero value: "+strings.Join(bad, ", ")+" — such a value reloads as the default, not as what was saved", nil)
+			}
+		}
+	}
 }
